@@ -63,6 +63,7 @@ Theorem C06_primitive_generic_agree : forall (T : Type) (K : kops T) (p : profil
      k_ltb K (k_upd K va vb md sa sb sx) (k_max K) = true) ->
   (below_kind_of meth = BelowRename ->
      forall va vb md sa sb sx, (uses_sizes_ab meth = true -> 0 < sa /\ 0 < sb) ->
+     k_ltb K va md = false -> k_ltb K vb md = false ->
      k_ltb K (k_upd K va vb md sa sb sx) va = false \/ k_ltb K (k_upd K va vb md sa sb sx) vb = false) ->
   (tracks_candidates meth = false ->
      forall va vb md sa sb sx, k_ltb K (k_upd K va vb md sa sb sx) vb = false) ->
@@ -96,9 +97,9 @@ Theorem C06_selection_primitive_generic_agree : forall (T : Type) (F : fops T) (
 Proof. exact selection_primitive_generic_agree. Qed.
 Print Assumptions C06_selection_primitive_generic_agree.
 
-(* exact rationals with the infinite sentinel: every method but Ward *)
-Theorem C06_QI_primitive_generic_agree : forall (p : profile) (rt : Q -> Q) (meth : method), meth <> Ward ->
-  forall s1 d1 s2 d2 (mq : list Q) (n : N) sp dp mp sg dg mg M0,
+(* exact rationals with the infinite sentinel: all seven methods *)
+Theorem C06_QI_primitive_generic_agree : forall (p : profile) (rt : Q -> Q) (meth : method)
+  s1 d1 s2 d2 (mq : list Q) (n : N) sp dp mp sg dg mg M0,
   prologue p (square_all (kops_of (QI rt) meth) (map Some mq)) n = Ok M0 ->
   primitive_with (kops_of (QI rt) meth) p meth s1 d1 (map Some mq) n = Ok (sp, dp, mp) ->
   generic_with (kops_of (QI rt) meth) p meth s2 d2 (map Some mq) n = Ok (sg, dg, mg) ->
